@@ -66,6 +66,12 @@ func pdDefOf(p *pkgSrc, body *ast.BlockStmt, name string) ast.Expr {
 
 func pdSquash(s string) string { return strings.Join(strings.Fields(s), " ") }
 
+// pdIsIDKey: a call of the id-normalising helper requestIDKey(x).
+func pdIsIDKey(p *pkgSrc, e ast.Expr) bool {
+	c, ok := e.(*ast.CallExpr)
+	return ok && len(c.Args) == 1 && p.text(c.Fun) == "requestIDKey"
+}
+
 func pdIsSprintfV(p *pkgSrc, e ast.Expr) bool {
 	c, ok := e.(*ast.CallExpr)
 	if !ok || len(c.Args) != 2 {
@@ -81,6 +87,9 @@ func pdInsertKind(p *pkgSrc, e ast.Expr) string {
 	}
 	if pdIsSprintfV(p, e) {
 		return "sprintfV"
+	}
+	if pdIsIDKey(p, e) {
+		return "idKey"
 	}
 	t := pdSquash(p.text(e))
 	switch {
@@ -163,6 +172,9 @@ func pdLookupKind(p *pkgSrc, fn string, body *ast.BlockStmt, key ast.Expr) strin
 	if pdIsSprintfV(p, d) {
 		return "sprintfV"
 	}
+	if pdIsIDKey(p, d) {
+		return "idKey"
+	}
 	if c, ok := d.(*ast.CallExpr); ok && strings.HasSuffix(p.text(c.Fun), ".parseRequestID") {
 		recv := strings.SplitN(fn, ".", 2)[0]
 		if pdParseRequestIDOK(p, recv) {
@@ -213,7 +225,7 @@ func pdAnalyseTable(p *pkgSrc, spec pdTableSpec) pdTableFact {
 					}
 				}
 			case *ast.CallExpr:
-				if spec.mapSuffix == "" && strings.HasSuffix(p.text(x.Fun), ".RegisterRequest") && len(x.Args) == 1 && keyExpr == nil {
+				if spec.mapSuffix == "" && strings.HasSuffix(p.text(x.Fun), ".RegisterRequest") && len(x.Args) >= 1 && keyExpr == nil {
 					keyExpr = x.Args[0]
 				}
 			}
@@ -247,6 +259,7 @@ func pdAnalyseTable(p *pkgSrc, spec pdTableSpec) pdTableFact {
 			}
 		}
 	}
+	sites, sitesComparing := 0, 0
 	for _, lf := range spec.lookups {
 		fd, _ := p.funcDecl(lf)
 		if fd == nil || fd.Body == nil {
@@ -264,7 +277,7 @@ func pdAnalyseTable(p *pkgSrc, spec pdTableSpec) pdTableFact {
 					}
 				}
 			case *ast.CallExpr:
-				if spec.mapSuffix == "" && strings.HasSuffix(p.text(x.Fun), ".DeliverResponse") && len(x.Args) == 2 {
+				if spec.mapSuffix == "" && strings.HasSuffix(p.text(x.Fun), ".DeliverResponse") && len(x.Args) >= 2 {
 					keys = append(keys, x.Args[0])
 				}
 			}
@@ -278,11 +291,20 @@ func pdAnalyseTable(p *pkgSrc, spec pdTableSpec) pdTableFact {
 		for _, k := range keys {
 			f.lookupFuncs = append(f.lookupFuncs, lf)
 			f.lookupKinds = append(f.lookupKinds, pdLookupKind(p, lf, fd.Body, k))
-			if pdSessionCompared(p, fd.Body, k) {
-				f.usesSession = true
+			cmp := pdSessionCompared(p, fd.Body, k)
+			if !cmp && spec.mapSuffix == "" {
+				// the Streamable table is consulted through responseManager.DeliverResponse: the comparison may sit there
+				if dd, _ := p.funcDecl("responseManager.DeliverResponse"); dd != nil && dd.Body != nil {
+					cmp = pdSessionCompared(p, dd.Body, nil)
+				}
+			}
+			sites++
+			if cmp {
+				sitesComparing++
 			}
 		}
 	}
+	f.usesSession = sites > 0 && sites == sitesComparing // every lookup site takes the posting session into account
 	return f
 }
 
@@ -346,6 +368,9 @@ func pdPostSseMatcher(p *pkgSrc) (string, string) {
 		if pdIsSprintfV(p, be.X) && pdIsSprintfV(p, be.Y) {
 			l, r = "sprintfV", "sprintfV"
 		}
+		if pdIsIDKey(p, be.X) && pdIsIDKey(p, be.Y) {
+			l, r = "idKey", "idKey"
+		}
 		return true
 	})
 	return l, r
@@ -392,9 +417,9 @@ func genPending(root *pkgSrc) {
 	b.WriteString("namespace Mcp.Gen\n")
 	b.WriteString("/-- one request/answer correlation table of the library (texts are code points). -/\n")
 	b.WriteString("structure PdTable where\n  name : List Nat\n  insertFunc : List Nat\n  insertKey : List Nat          -- source text of the key expression at the insert\n" +
-		"  insertKind : List Nat         -- sprintfV | int64Assert | uint64OfInt64 | other\n  deferredDelete : Bool         -- the insert has its matching deferred delete\n" +
-		"  lookupFuncs : List (List Nat)\n  lookupKinds : List (List Nat) -- sprintfV | int64OfFloat64 | parseRequestID | other, one per lookup site\n" +
-		"  lookupUsesSession : Bool      -- a lookup site takes the posting session into account\n  deriving Repr, DecidableEq\n")
+		"  insertKind : List Nat         -- idKey | sprintfV | int64Assert | uint64OfInt64 | other\n  deferredDelete : Bool         -- the insert has its matching deferred delete\n" +
+		"  lookupFuncs : List (List Nat)\n  lookupKinds : List (List Nat) -- idKey | sprintfV | int64OfFloat64 | parseRequestID | other, one per lookup site\n" +
+		"  lookupUsesSession : Bool      -- every lookup site takes the posting session into account\n  deriving Repr, DecidableEq\n")
 	b.WriteString("def pdTables : List PdTable := [\n")
 	for i, spec := range pdTableSpecs {
 		f := pdAnalyseTable(root, spec)
